@@ -58,6 +58,16 @@ std::string vstr(std::vector<long> const &v)
 using result_t = unsigned;
 struct World;
 
+// the signals' argument: passed BY VALUE and with a real move constructor, so that an argument
+// moved into the first callback (instead of being copied to each) is visible to the later ones
+struct Payload
+{
+  std::vector<unsigned> v;
+  explicit Payload(unsigned x) : v(3, x) {}
+  // what a callback sees: the value, or a marker if the payload was moved from before it arrived
+  unsigned seen() const { return v.size() == 3 ? v[0] : 777777U; }
+};
+
 struct ISig
 {
   virtual ~ISig() = default;
@@ -101,6 +111,7 @@ struct World
   std::vector<long> msig[SIGS]; // model: connection ids in order
   std::optional<Conn> conns[CONNS];
   std::vector<long> invoked; // callback invocation log of the current call
+  std::vector<unsigned> args_seen; // the argument each invoked callback received
   long dying = 0;            // cid of the connection being destroyed (for the unregister callback)
   // a violation noticed inside an unregister callback: the callback runs inside a destructor that
   // turns every exception into std::terminate, so it is recorded here and raised after the operation
@@ -141,6 +152,7 @@ struct World
     bool const strike = sim::fault::hit(sim::fault::cb);
     sim::fault::Harness h;
     invoked.push_back(cid);
+    args_seen.push_back(arg);
     if (strike)
       throw sim::Fault{"simulated exception from a signal callback"};
     return cb_value(cid, arg);
@@ -290,7 +302,7 @@ struct SigImpl : ISig
     World *wp = &w;
     if constexpr (Value)
     {
-      typename Signal::function f{[wp, cid, pad](unsigned arg) -> result_t { return wp->on_call(cid + 0 * pad.a[0], arg); }};
+      typename Signal::function f{[wp, cid, pad](Payload arg) -> result_t { return wp->on_call(cid + 0 * pad.a[0], arg.seen()); }};
       if constexpr (Unreg)
         return sig->connect(std::move(f), fcppt::signal::unregister::function{[wp, cid, pad] { wp->on_unregister(cid + 0 * pad.a[1]); }});
       else
@@ -298,7 +310,7 @@ struct SigImpl : ISig
     }
     else
     {
-      typename Signal::function f{[wp, cid, pad](unsigned arg) { wp->on_call(cid + 0 * pad.a[0], arg); }};
+      typename Signal::function f{[wp, cid, pad](Payload arg) { wp->on_call(cid + 0 * pad.a[0], arg.seen()); }};
       if constexpr (Unreg)
         return sig->connect(std::move(f), fcppt::signal::unregister::function{[wp, cid, pad] { wp->on_unregister(cid + 0 * pad.a[1]); }});
       else
@@ -308,10 +320,10 @@ struct SigImpl : ISig
   std::optional<result_t> call(result_t initial, unsigned arg) override
   {
     if constexpr (Value)
-      return (*sig)(typename Signal::initial_value{initial}, arg);
+      return (*sig)(typename Signal::initial_value{initial}, Payload(arg));
     else
     {
-      (*sig)(arg);
+      (*sig)(Payload(arg));
       return std::nullopt;
     }
   }
@@ -338,10 +350,10 @@ struct SigImpl : ISig
   }
 };
 
-using SigV = fcppt::signal::object<result_t(unsigned)>;
-using SigN = fcppt::signal::object<void(unsigned)>;
-using SigVU = fcppt::signal::object<result_t(unsigned), fcppt::signal::unregister::base>;
-using SigNU = fcppt::signal::object<void(unsigned), fcppt::signal::unregister::base>;
+using SigV = fcppt::signal::object<result_t(Payload)>;
+using SigN = fcppt::signal::object<void(Payload)>;
+using SigVU = fcppt::signal::object<result_t(Payload), fcppt::signal::unregister::base>;
+using SigNU = fcppt::signal::object<void(Payload), fcppt::signal::unregister::base>;
 
 template <typename Signal, bool Unreg, bool Value, typename... Args>
 std::unique_ptr<ISig> make_sig_impl(unsigned kind, Args &&...args)
@@ -784,9 +796,12 @@ void World::run_op(sim::Op const &op)
     unsigned const arg = static_cast<unsigned>(op.getu("arg") % 100);
     result_t const initial = static_cast<result_t>(op.getu("init") % 1000);
     invoked.clear();
+    args_seen.clear();
     std::optional<result_t> res;
     bool const ok = guarded(n, [&] { res = sigs[s]->call(initial, arg); });
     std::vector<long> const &m = msig[s];
+    for (unsigned a : args_seen)
+      SIM_CHECK(a == arg, "callback-argument", "a callback of signal " + std::to_string(s) + " received " + std::to_string(a) + " instead of the argument " + std::to_string(arg) + " the signal was called with (by-value arguments must reach every callback intact)");
     if (ok)
     {
       SIM_CHECK(invoked == m, "invocation", "call of signal " + std::to_string(s) + " invoked " + vstr(invoked) + ", live connections in order are " + vstr(m));
@@ -801,7 +816,8 @@ void World::run_op(sim::Op const &op)
     else
     {
       // a callback threw: exactly a prefix of the members was invoked, the thrower last
-      SIM_CHECK(sim::fault::fired(sim::fault::cb), "undocumented-exception", n);
+      // (or copying the by-value argument for a callback hit an injected allocation failure)
+      SIM_CHECK(sim::fault::fired(sim::fault::cb) || sim::fault::fired(sim::fault::alloc), "undocumented-exception", n);
       SIM_CHECK(invoked.size() <= m.size() && std::equal(invoked.begin(), invoked.end(), m.begin()), "invocation", "after a throwing callback the invoked callbacks " + vstr(invoked) + " are not a prefix of " + vstr(m));
       ctx.probe("callback_threw");
     }
